@@ -116,6 +116,15 @@ def handle (useSpec : Bool) (p : Proc) (line : String) : Proc × String :=
       if useSpec then (p, if Aggregate.assignable t b then "ok" else "refused")
       else (p, if checkType ⟨t, 1⟩ b then "ok" else "refused")
     | _, _ => (p, "bad-op")
+  | ["mem", t, v] =>                   -- `value in container` (EXPRESS `IN`)
+    match parseTy t, v.toNat?, p.get with
+    | _, _, .none => (p, "no-aggregate")
+    | some t, some v, .model a =>
+      if !plainBase t then (p, "bad-op")
+      else if membershipDefined then (p, showLogical (if a.contains ⟨t, v⟩ then .t else .f)) else (p, "unmodelled")
+    | some t, some v, .spec d val =>
+      if !plainBase t then (p, "bad-op") else (p, showLogical (if Aggregate.member d val ⟨t, v⟩ then .t else .f))
+    | _, _, _ => (p, "bad-op")
   | ["bi", f] =>                       -- a built-in function of Builtin.py applied to the current container
     match parseBFn f, parseSpecFn f, p.get with
     | some _, some _, .none => (p, "no-aggregate")
